@@ -618,4 +618,15 @@ def check(ctx):
     ctx.ob('C12.R6.consumer', 'Endgame<kKPK>', bool(ok),
            'the KPK evaluator normalises (side to move, strong king, pawn, weak king) of the position, looks exactly those up, and scores a set bit '
            'as a win and a clear bit as a draw', site=k.loc())
+    # a KPK position reaches that evaluator whatever was evaluated before: the dispatcher and everything it calls keep no state
+    # between evaluations (C14.R0), and it hands the position to the first evaluator that applies (C13.R4)
+    from rules.common import SubCtx as _SC14
+    from props.C14 import r0 as _r0
+    sub14 = _SC14(ctx)
+    _r0(sub14, p)
+    bad14 = [r for r in sub14.results if not r[2] and r[0] == 'C14.R0.no-hidden-state' and 'endgame' in (str(r[1]) + str(r[4]) + str(r[3])).lower()]
+    ctx.ob('C12.R6.dispatch-stateless', 'endgame::score', not bad14,
+           'which evaluator scores a position does not depend on earlier evaluations: nothing reachable from the dispatcher writes a '
+           'variable that outlives the call (C14.R0)%s' % ('' if not bad14 else ' — ' + '; '.join('%s at %s' % (r[1], r[4]) for r in bad14[:3])),
+           site=bad14[0][4] if bad14 else 'engine/endgame.cpp')
     ctx.note('not decided: that the computed table equals the game-theoretic values (needs the fix-point, i.e. running or re-implementing the solver)')
